@@ -87,6 +87,9 @@ try:
     NTOne = collections.namedtuple("NTOne", ["v"])
     TMsg = message_type("t_msg", ["foo", "bar"])
     TMsg0 = message_type("t_empty", [])
+    # two factories with the SAME type name and different fields (like 'stop' of orchestrator.py and ncbb.py)
+    TDupA = message_type("t_dup", [])
+    TDupB = message_type("t_dup", ["a", "b"])
 except Exception:  # pragma: no cover  (pydcop not importable: every case reports a driver error)
     pass
 
@@ -868,6 +871,9 @@ def graph_objects(rng, algo, steps):
     cdefs = [ComputationDef(n, adef) for n in cg.nodes]
     for cd in cdefs:
         objs.append(("comp_def", cd))
+    if mod.GRAPH_TYPE == "ordered_graph":
+        for scd in sparse_ordered_defs(random.Random(rng.randint(0, 10 ** 6)))[:3]:
+            objs.append(("comp_def", scd))
     for n in cg.nodes:
         for l in list(n.links)[:2]:
             objs.append(("link", l))
@@ -938,7 +944,44 @@ def infra_messages(rng):
         O.SetupRepairMessage({"v0": (["a1", "a2"], {"a1": "B_v0_a1"}, {"c1": ["v0", "v1"]})}),
         O.RepairReadyMessage("a1", ["B_v0_a1"]), SynchronizationMsg(),
         Message("x", rng.choice([None, 3, "c", [1, 2], {"k": (1, "a")}])),
-    ]
+    ] + same_name_messages(rng)
+
+
+def same_name_messages(rng):
+    """message_type() classes sharing a type name but not their fields, decoded in one process in both
+    orders (A B A / B A B): what is decoded must not depend on what was decoded before"""
+    from pydcop.infrastructure import orchestrator as O
+    from pydcop.algorithms import ncbb
+    pairs = [(lambda: O.StopAgentMessage(), lambda: ncbb.StopMessage(rng.choice([True, False, 1]))),
+             (lambda: TDupA(), lambda: TDupB(rng.randint(0, 9), rng.choice(["x", None, 0.5])))]
+    out = []
+    for a, b in pairs:
+        if rng.random() < 0.5:
+            a, b = b, a
+        out += [a(), b(), a(), b()]
+    return out
+
+
+def sparse_ordered_defs(rng, nv=None):
+    """computation definitions of an ordered graph (SyncBB) on a SPARSE problem: the lexical next / previous
+    variable of a node shares no constraint with it (x1-x3, x2-x4, ...), so whatever the graph builder attaches
+    to a node for its order neighbours must come back from the hand-written _from_repr"""
+    from pydcop.dcop.dcop import DCOP
+    from pydcop.dcop.objects import Domain, Variable
+    from pydcop.dcop.relations import constraint_from_str
+    from pydcop.computations_graph import ordered_graph as og
+    from pydcop.algorithms import AlgorithmDef, ComputationDef
+    nv = nv or rng.randint(4, 5)
+    d = Domain("d", "level", [0, 1, 2][:rng.randint(2, 3)])
+    vs = [Variable("x%d" % i, d) for i in range(1, nv + 1)]
+    dcop = DCOP("sparse", rng.choice(["min", "max"]))
+    for i in range(nv - 2):
+        dcop.add_constraint(constraint_from_str("c%d%d" % (i + 1, i + 3),
+                                                "abs(x%d - x%d) * %d" % (i + 1, i + 3, rng.randint(1, 3)),
+                                                [vs[i], vs[i + 2]]))
+    cg = og.build_computation_graph(dcop)
+    adef = AlgorithmDef("syncbb", {}, dcop.objective)
+    return [ComputationDef(n, adef) for n in cg.nodes]
 
 
 RECIPES = ["noisy_var", "dsa_numpy_value", "sync_cycle_id", "maxsum_inf"]
@@ -1041,6 +1084,10 @@ def census_objects(rng):
         except Exception as e:
             notes.append("graph_objects(%s) failed: %s: %s" % (a, type(e).__name__, str(e)[:80]))
     objs += infra_messages(rng)
+    try:
+        objs += sparse_ordered_defs(rng)
+    except Exception as e:
+        notes.append("sparse_ordered_defs failed: %s: %s" % (type(e).__name__, str(e)[:80]))
     # messages with a hand-written repr need well-typed contents (never left to the fallback below)
     from pydcop.algorithms.maxsum import MaxSumMessage
     from pydcop.algorithms.mgm2 import Mgm2OfferMessage
@@ -1261,6 +1308,11 @@ def oracle(c, o):
         if it.get("diff"):
             msgs.append((_finding_of(it) is not None, "%s (%s) does not survive %s: %s" % (
                 it["cls"], it.get("role", c["kind"]), "pickling" if it["k"] == "pickle" else "the wire", it["diff"])))
+        elif it["k"] == "wire" and it["in"][0] == "M" and it["out"].get("ok") != it["in"]:
+            # a message_type message: same type name, same fields (the class it is rebuilt with must not
+            # depend on what was decoded before in this process), same field values as the one sent
+            msgs.append((_finding_of(it) is not None, "%s (%s) does not survive the wire: sent %s, received %s" % (
+                it["cls"], it.get("role", c["kind"]), json.dumps(it["in"])[:200], json.dumps(it["out"])[:200])))
     # report a failure that is not an instance of a listed finding first
     for known, m in msgs:
         if not known:
